@@ -10,9 +10,18 @@
 //!     interleavings of the reader thread and the per-chunk hash workers. Same digest on every schedule, no
 //!     deadlock, an injected stream error is returned on every schedule.
 //!
-//! Mutants caught (tools/mutant_run.sh G <diff> C13 quick):
-//!   C13-sort-by-end.diff        ranges sorted by end instead of start           -> VIOLATION (past-end-accepted / wrong-digest)
-//!   C13-shared-hasher-race.diff workers update a shared hasher, reader does not wait -> VIOLATION (schedule-dependent digest)
+//! The S-inp spaces run the pipeline through the scheduler facade with an *inline* scheduler (a hash worker runs to
+//! completion at its spawn point — one of the schedules S-sched enumerates); OS thread creation would otherwise
+//! dominate 10^6..10^8 hashing calls. Space R and the free-running pass use real worker threads.
+//!
+//! Mutants caught (mutant_run, quick tier):
+//!   C13-sort-by-end.diff        ranges sorted by end instead of start
+//!       -> VIOLATION  key `wrong-digest mode=inclusion class=no-markers`
+//!   C13-shared-hasher-race.diff hash workers update a shared hasher and the reader no longer waits for them
+//!       -> VIOLATION  keys `nondeterministic-digest real-threads`, `sched-wrong-digest …`, `chunk-dependent …`, `free-running-pipeline`
+//! Findings of this check on the pinned tree (before commit d2a8c4baf fixed them): `past-end-accepted mode=exclusion
+//! offender=not-greatest-start|tied-greatest-start`, `wrong-digest mode=exclusion class=marker-on-one-byte-island(offset||offset)`,
+//! `panic mode=inclusion … msg=attempt to add with overflow` (u32 sum of progress ticks for a 2^32-1 / 2^64-1 long inclusion range).
 
 use c2pa::{
     verif_hooks::sched::{self, AnyMsg, RecvFn, SchedHooks, SendFn},
@@ -824,32 +833,19 @@ pub fn run(run: &Run, replay: Option<&Value>) {
         return;
     }
 
-    if std::env::var("VERIF_C13_BENCH").is_ok() {
-        sched::install(Some(SchedHooks { spawn: in_spawn, channel: in_channel }));
-        for c in [
-            Case { l: 6, ranges: vec![(2, 1)], markers: vec![4], excl: true, alg: "sha256", none_when_empty: true },
-            Case { l: 6, ranges: vec![(2, 1), (0, u64::MAX)], markers: vec![4], excl: true, alg: "sha256", none_when_empty: true },
-            Case { l: 6, ranges: vec![(2, 1), (0, u64::MAX)], markers: vec![4], excl: false, alg: "sha256", none_when_empty: true },
-        ] {
-            let d = stream_bytes(6);
-            let t = std::time::Instant::now();
-            for _ in 0..20000 { let _ = call_hook(&c, &d, 1); }
-            let t1 = t.elapsed();
-            let t = std::time::Instant::now();
-            let mut out = std::collections::BTreeMap::new();
-            for _ in 0..20000 { judge(run, &c, false, &mut out); }
-            println!("{:?}: hook call {:?}/call, judge {:?}/case; outcomes {:?}", c.ranges, t1 / 20000, t.elapsed() / 20000, out);
-        }
-        sched::install(None);
-        run.eval();
-        return;
-    }
-    // own the nondeterminism: one pipelined case twice
+    // The subject is a pure function of fixed inputs (no identifiers, no clock): if one pipelined call with real
+    // worker threads gives two different results, that is not harness nondeterminism but the property failing.
     {
         let c = Case { l: 6, ranges: vec![(2, 1)], markers: vec![4], excl: true, alg: "sha256", none_when_empty: true };
         let d = stream_bytes(6);
-        if !same(&call_hook(&c, &d, 1), &call_hook(&c, &d, 1)) {
-            kit::ev::machinery("C13: the same hashing call gives two different results");
+        let first = call_hook(&c, &d, 1);
+        for _ in 0..50 {
+            run.eval();
+            let again = call_hook(&c, &d, 1);
+            if !same(&first, &again) {
+                violation(run, "nondeterministic-digest real-threads".to_string(), format!("the same hashing call (max_hash_buf=1, real worker threads) gives {} and {}", show(&first), show(&again)), c.json());
+                break;
+            }
         }
     }
 
@@ -861,8 +857,8 @@ pub fn run(run: &Run, replay: Option<&Value>) {
     let spaces: Vec<Space> = if q {
         vec![
             Space { name: "A(no markers)", max_l: 8, max_ranges: 2, markers: (0, 0), algs: &["sha256"] },
-            Space { name: "B(markers)", max_l: 5, max_ranges: 2, markers: (1, 2), algs: &["sha256"] },
-            Space { name: "C(other algorithms)", max_l: 3, max_ranges: 2, markers: (0, 2), algs: &["sha384", "sha512"] },
+            Space { name: "B(markers)", max_l: 6, max_ranges: 2, markers: (1, 2), algs: &["sha256"] },
+            Space { name: "C(other algorithms)", max_l: 4, max_ranges: 2, markers: (0, 2), algs: &["sha384", "sha512"] },
         ]
     } else {
         vec![
